@@ -6,9 +6,11 @@ from . import parts
 def run(tier):
     ck = common.Check('C03', tier)
     res = parts.run_parts(ck, tier, ir_parts=('ir_lifetime', 'ir_size', 'ir_laws'),
-                          rule_filter=lambda part, x: part != 'ir_laws' or x.rule == 'R03.7')
+                          rule_filter=lambda part, x: part != 'ir_laws' or x.rule in ('R03.7', 'R03.8'))
     led = sum(x['res']['ledgered'] for x in res.get('ir_laws', []))
     ck.floor('normal-return paths with an exact lifetime ledger', led, 1500 if tier == 'quick' else 10000)
+    ledu = sum(x['res']['ledgered_unwind'] for x in res.get('ir_laws', []))
+    ck.floor('exceptional exits with an exact ledger of a temporary block', ledu, 1000 if tier == 'quick' else 8000)
     from .. import irrules
     irrules.run_canaries(ck, {'ir_size': [('R06.3', 'canary_size_first')]})
     r = res.get('ir_lifetime', [])
@@ -27,4 +29,7 @@ def run(tier):
         'from the element range effects of svlib/rules/ir_laws.py): in storage that held live elements on entry elements are assigned '
         '(or destroyed and re-constructed), beyond it and in fresh buffers they are constructed - never the other way round; the '
         'elements that leave the sequence ([new end, old end) when it shrinks in place, the whole old buffer when it is relocated) are '
-        'destroyed exactly, and nothing that stays is destroyed. Not decided: exact once-ness over whole histories.')
+        'destroyed exactly, and nothing that stays is destroyed; R03.8 (every function compiled from the header, exceptional exits): '
+        'what was constructed in a block obtained on the path that is not a container\'s buffer afterwards (the new buffer of a failed '
+        'reallocation, a heap temporary) is tiled exactly by the destructions that follow - a roll-back handler that destroys a different '
+        'count than was constructed is reported. Not decided: exact once-ness over whole histories.')
